@@ -494,8 +494,16 @@ func (sess *session) Create(ctx context.Context, parent Fid, name string,
 		next := SFid{Ent: ent}
 		err = openLocked(ctx, &next, mode)
 		if err != nil { // Oops: Create has already succeeded
-						// - so now we have to delete everthing.
-			sess.delRef(ctx, parent, false)
+			// - so now we have to delete everthing.
+			// Create has consumed ref.Ent, so the fid cannot stay
+			// bound to it: unbind the fid and release the new entry.
+			// We already hold ref's lock (delRef would wait for it
+			// for ever), so do delRef's steps on ref directly.
+			sess.refs.Delete(parent)
+			ref.File = nil
+			ref.Mode = 0
+			ref.link(ent)
+			delRefAction(ctx, ref, false)
 			// Note: ignoring possible multiple errors
 			return fail(err.Error())
 		}
